@@ -1,6 +1,7 @@
 import Marwood.Highlight
 import Marwood.Spec.Brackets
 import Marwood.Parse
+import Marwood.Spec.Reader
 import Driver.Wire
 namespace Marwood.Driver.Reader
 open Marwood Marwood.Wire
@@ -28,6 +29,14 @@ def Oracle.flo (o : Oracle) (k : String) : F64 :=
 def Oracle.text (o : Oracle) (k : String) : Option Text :=
   (o.lookup k).bind decText
 
+/-- text returned for a float format the harness did not supply; it cannot occur in real output
+    (a raw NUL), and every response is checked for it -/
+def poisonText : Text := [Char.ofNat 0, 'M', 'I', 'S', 'S']
+
+def textPoisoned : Text → Bool
+  | [] => false
+  | c :: cs => (c == Char.ofNat 0 && cs.take 4 == ['M', 'I', 'S', 'S']) || textPoisoned cs
+
 def oracleOps (o : Oracle) : FloatOps where
   parseF64 r s :=
     match o.lookup s!"F{r}:{encText s}" with
@@ -41,10 +50,10 @@ def oracleOps (o : Oracle) : FloatOps where
     | some v => (match decNum v with | some n => some n | none => some (.flo poison))
     | none => some (.flo poison)
   toInexact n := o.flo ("I" ++ encNum n)
-  fmtExp f := (o.text ("Pe" ++ toHex16 f.bits)).getD []
-  fmtFix1 f := (o.text ("Pf" ++ toHex16 f.bits)).getD []
-  fmtShort f := (o.text ("Ps" ++ toHex16 f.bits)).getD []
-  fmtRadix r f := (o.text (s!"R{r}:" ++ toHex16 f.bits)).getD []
+  fmtExp f := (o.text ("Pe" ++ toHex16 f.bits)).getD poisonText
+  fmtFix1 f := (o.text ("Pf" ++ toHex16 f.bits)).getD poisonText
+  fmtShort f := (o.text ("Ps" ++ toHex16 f.bits)).getD poisonText
+  fmtRadix r f := (o.text (s!"R{r}:" ++ toHex16 f.bits)).getD poisonText
 
 def numPoisoned : Num → Bool
   | .flo f => decide (f.bits ≥ 2^64)
@@ -52,6 +61,7 @@ def numPoisoned : Num → Bool
 
 def datumPoisoned : Datum → Bool
   | .num n => numPoisoned n
+  | .str t => textPoisoned t
   | .pair a d => datumPoisoned a || datumPoisoned d
   | .vec e => datumPoisoned e
   | _ => false
@@ -68,6 +78,36 @@ def parseErrName : ParseErr → String
   | .lex .incomplete => "Lex:Incomplete"
   | .lex (.unexpectedToken _) => "Lex:UnexpectedToken"
   | .lex (.unexpectedFollowing _ _) => "Lex:UnexpectedFollowing"
+
+def procErrName : ProcErr → String
+  | .invalidNumArgs => "InvalidNumArgs"
+  | .invalidSyntax => "InvalidSyntax"
+
+def showProc (r : Res ProcErr Datum) : String :=
+  match r with
+  | .ok d => if datumPoisoned d then "oracle-missing" else "ok " ++ encDatum d
+  | .err e => "err " ++ procErrName e
+  | .panic _ => "panic"
+
+/-- decode all data of a token list -/
+partial def decData (ws : List String) : Option (List Datum) :=
+  match ws with
+  | [] => some []
+  | _ => do
+    let (d, rest) ← decDatum ws
+    let ds ← decData rest
+    pure (d :: ds)
+
+/-- value and exactness of a number, canonically -/
+def canonNum : Num → String
+  | .fix n => s!"exact:{n}/1"
+  | .big n => s!"exact:{n}/1"
+  | .rat n d =>
+    let g : Int := Int.gcd n d
+    if d = 0 then "exact:invalid" else
+    let (n', d') := if d < 0 then (-(n / g), -(d / g)) else (n / g, d / g)
+    s!"exact:{n'}/{d'}"
+  | .flo f => "inexact:" ++ toHex16 f.bits
 
 def showParseText (r : PRes (Datum × Option Text)) : String :=
   match r with
@@ -118,6 +158,70 @@ def handle (cmd : String) (args : List String) : Option String :=
       let cs ← decText t
       let o ← decOracle o
       pure (showReadAll (readAllF (oracleOps o) (cs.length + 2) cs))
+  | "spec-first-datum", [t] => (decText t).map fun cs =>
+      match scan cs with
+      | .error .incomplete => "incomplete"
+      | .error _ => "malformed"
+      | .ok ts =>
+        match Spec.firstDatumEnd 0 0 (ts.map (·.ty)) with
+        | .incomplete => "incomplete"
+        | .malformed => "malformed"
+        | .complete k =>
+          match ts[k]? with
+          | none => "ok-rest none"
+          | some t => (match dropBytes t.lo cs with
+              | some r => "ok-rest " ++ encText r
+              | none => "malformed")
+  | "spec-count-data", [t] => (decText t).map fun cs =>
+      match scan cs with
+      | .error .incomplete => "incomplete"
+      | .error _ => "malformed"
+      | .ok ts =>
+        match Spec.countData (ts.length + 1) (ts.map (·.ty)) with
+        | (n, .complete _) => s!"ok {n} end"
+        | (n, .incomplete) => s!"ok {n} incomplete"
+        | (n, .malformed) => s!"ok {n} malformed"
+  | "proc-n2s", o :: ws => do
+      let o ← decOracle o
+      let args ← decData ws
+      pure (showProc (numberToStringProc (oracleOps o) args))
+  | "proc-s2n", o :: ws => do
+      let o ← decOracle o
+      let args ← decData ws
+      pure (showProc (stringToNumberProc (oracleOps o) args))
+  | "c16-roundtrip", [o, z, r] => do
+      let o ← decOracle o
+      let z ← decNum z
+      let r ← r.toNat?
+      let fo := oracleOps o
+      pure (match numberToStringProc fo [.num z, .num (.fix r)] with
+        | .ok (.str s) =>
+          if textPoisoned s then "oracle-missing" else
+          (match stringToNumberProc fo [.str s, .num (.fix r)] with
+            | .ok d => if datumPoisoned d then "oracle-missing" else "ok " ++ encText s ++ " " ++ encDatum d
+            | .err e => "ok " ++ encText s ++ " err " ++ procErrName e
+            | .panic _ => "ok " ++ encText s ++ " panic")
+        | .ok _ => "bad-op"
+        | .err e => "err " ++ procErrName e
+        | .panic _ => "panic")
+  | "spec-canon", [z] => (decNum z).map canonNum
+  | "c16-literal", [o, t, r] => do
+      let o ← decOracle o
+      let cs ← decText t
+      let r ← r.toNat?
+      let fo := oracleOps o
+      let pre : Text := if r = 2 then "#b".toList else if r = 8 then "#o".toList
+        else if r = 16 then "#x".toList else "#d".toList
+      let lit := match parseText fo (pre ++ cs) with
+        | .ok (d, none) => if datumPoisoned d then "oracle-missing" else encDatum d
+        | .ok (_, some _) => "trailing"
+        | .err e => "err:" ++ parseErrName e
+        | .panic _ => "panic"
+      let viaProc := match stringToNumberProc fo [.str cs, .num (.fix r)] with
+        | .ok d => if datumPoisoned d then "oracle-missing" else encDatum d
+        | .err e => "err:" ++ procErrName e
+        | .panic _ => "panic"
+      pure ("ok " ++ lit ++ " " ++ viaProc)
   | "highlight", [t, i] => do
       let cs ← decText t
       let i ← i.toNat?
